@@ -69,6 +69,7 @@ type plan struct {
 	idx       int
 	kind      storeKind
 	nosync    bool
+	gran      string // access-time granularity of the store: "" default | "0" | "1ns" (rig.go)
 	mode      string // consistent | random | mixed
 	types     []common.TokenType
 	G         int
@@ -90,6 +91,17 @@ func (p *plan) typeNames() string {
 	return strings.Join(n, "+")
 }
 
+// consistentVal: is pool value i tokenized in consistent mode in this history?
+func (p *plan) consistentVal(i int) bool {
+	switch p.mode {
+	case "consistent":
+		return true
+	case "random":
+		return false
+	}
+	return i%3 != 2
+}
+
 func layersFor(consistent bool) []layer {
 	if consistent {
 		return []layer{lPseudo, lTranslator, lDataTok, lColumn}
@@ -104,6 +116,14 @@ func makePlan(r *ev.Run, idx int) *plan {
 	p := &plan{idx: idx}
 	p.kind = storeKinds[idx%4]
 	p.nosync = idx%16 >= 4 // one BoltDB history in four keeps the default fsync-per-transaction behaviour
+	// two groups of four histories (one per store kind) in seven run with an access-time granularity of 0 / 1ns: every Get
+	// refreshes the record's access time (BoltDB: writes the record back); no fsync there, every read is also a write
+	switch (idx / 4) % 7 {
+	case 1:
+		p.gran, p.nosync = "0", true
+	case 4:
+		p.gran, p.nosync = "1ns", true
+	}
 	switch (idx / 4) % 5 {
 	case 0, 1, 2:
 		p.mode = "consistent"
@@ -189,15 +209,7 @@ func makePlan(r *ev.Run, idx int) *plan {
 			uniq = append(uniq, i)
 		}
 	}
-	valMode := func(i int) bool { // consistent?
-		switch p.mode {
-		case "consistent":
-			return true
-		case "random":
-			return false
-		}
-		return i%3 != 2
-	}
+	valMode := p.consistentVal
 	nOps := 10 + rng.Intn(10)
 	if r.Thorough() {
 		nOps = 14 + rng.Intn(20)
@@ -545,9 +557,9 @@ func runHistory(r *ev.Run, p *plan, ks ksrig.FullKeyStore) {
 	defer func() {
 		r.Count(fmt.Sprintf("wall_ms_in_histories:%s:nosync=%v", p.kind.name(), p.nosync), time.Since(t0).Milliseconds())
 	}() // cost accounting only
-	g, err := newRig(p.kind, ks, p.nosync)
+	g, err := newRigGran(p.kind, ks, p.nosync, p.gran)
 	if err != nil {
-		r.Inconclusive(fmt.Sprintf("history %d: store %s could not be built: %v", p.idx, p.kind.name(), err))
+		r.Inconclusive(fmt.Sprintf("history %d: store %s could not be built: %v", p.idx, cfgName(p.kind, p.gran), err))
 		return
 	}
 	defer g.discard()
@@ -577,17 +589,22 @@ func runHistory(r *ev.Run, p *plan, ks ksrig.FullKeyStore) {
 			phIdx++
 		}
 	}
+	if p.gran != "" && !h.dead {
+		// every Get refreshed the record it read: use a sample of the tokens again, three times each (reuse.go)
+		h.reuseSweep(phIdx)
+	}
 	h.summarize()
 }
 
 // Run is the C10 monitor.
 func Run(r *ev.Run) {
-	r.Rule = "a case is one history: (store kind in {memory,BoltDB} x {plain, encrypting wrapper}) x mode {consistent, random, mixed} x 1-2 token types x value pool (boundary values shared by all 3 client contexts, values unique to one context, fresh values every goroutine tokenizes in the same order) x 2-16 goroutines x per-goroutine op lists over the entry points {Pseudoanonymizer generic/typed, TranslatorService, DataTokenizer text form, TokenEncryptor/TokenProcessor} x a maintenance script (none, status, disable..enable, remove all, disable..remove only disabled, remove only disabled with nothing disabled, dry run, date limits matching nothing/everything, BoltDB close+reopen; through the acra-tokens subcommands in a child process or through the storage visitor); all generated from (seed, history index). Plus a fixed list of decimal boundary texts per integer column, store kind and text entry point, and a disabled-token matrix (every boundary value of every type tokenized in both modes on every store kind, all records disabled, every token detokenized through every detokenize entry point, all enabled back, detokenized again; distinct = (store kind, type, entry point) where a token different from its value came back as itself while disabled and as the original afterwards). A history is non-trivial when at least one consistent key had two tokenize calls overlapping in logical time and every oracle saw events; distinct = (store kind, mode, types, goroutine class, maintenance kind, via cli/direct, contention seen) tuples of such histories"
+	r.Rule = "a case is one history: (store kind in {memory,BoltDB} x {plain, encrypting wrapper}) x mode {consistent, random, mixed} x 1-2 token types x value pool (boundary values shared by all 3 client contexts, values unique to one context, fresh values every goroutine tokenizes in the same order) x 2-16 goroutines x per-goroutine op lists over the entry points {Pseudoanonymizer generic/typed, TranslatorService, DataTokenizer text form, TokenEncryptor/TokenProcessor} x a maintenance script (none, status, disable..enable, remove all, disable..remove only disabled, remove only disabled with nothing disabled, dry run, date limits matching nothing/everything, BoltDB close+reopen; through the acra-tokens subcommands in a child process or through the storage visitor); all generated from (seed, history index). Plus a fixed list of decimal boundary texts per integer column, store kind and text entry point, a tokens-used-again matrix (4 store kinds x access-time granularity {24 h default, 0, 1ns} x 5 types x 4 values x {consistent, random}: creation, then three rounds of owner detokenize + consistent tokenize again; distinct = (store configuration, type) where every use answered correctly), and a disabled-token matrix (every boundary value of every type tokenized in both modes on every store kind, all records disabled, every token detokenized through every detokenize entry point, all enabled back, detokenized again; distinct = (store kind, type, entry point) where a token different from its value came back as itself while disabled and as the original afterwards). A history is non-trivial when at least one consistent key had two tokenize calls overlapping in logical time and every oracle saw events; distinct = (store kind, mode, types, goroutine class, maintenance kind, via cli/direct, contention seen) tuples of such histories"
 	r.Assumptions = []string{
 		"crypto library replaced by the pure-Go gothemis stand-in (used by the encrypting token-store wrapper through acrablock); AEAD strength is the stand-in's",
 		"token stores covered: in-memory and BoltDB (go.etcd.io/bbolt file in a scratch directory), each plain and behind storage.WrapStorageWithEncryption(NewSCellEncryptor(keystore)); the Redis token store is NOT covered (no Redis server in the sandbox)",
 		"entry points driven in-process: Pseudoanonymizer (generic and typed methods), DataTokenizer, TokenEncryptor.EncryptWithClientID, TokenProcessor.OnColumn, TranslatorService.Tokenize/Detokenize; acra-tokens status/disable/enable/remove run as real subcommands (Parse+Execute) in a child process on the closed BoltDB file, and as the same visitor actions through TokenStorage.VisitMetadata for in-memory stores; SQL-statement rewriting (query tokenizers) and the wire are other properties' (C04/C19)",
 		"maintenance happens at quiescence (between phases of concurrent calls), as the property text says 'in between'; only a read-only metadata visitor runs concurrently with calls",
+		"the access-time granularity of a token store (TokenStorage.SetAccessTimeGranularity, default 24 h) is driven as configuration: default, 0 and 1ns; with 0 / 1ns every Get refreshes the record's access time (BoltDB: writes the record back in a second transaction - observed through BoltDB's transaction id, not through the clock), which is what a Get does in production to a record idle for more than a day; no command-line option of the pinned tree sets the granularity, the idle-for-a-day path itself cannot be driven without a clock",
 		"a token whose record maintenance disabled is an unknown token for every reader (the stores document ErrTokenDisabled as 'pretend that it's not there'): detokenize must answer with the token itself and no error, and with the original again after enable",
 		"interleavings are whatever the Go scheduler and the race detector's instrumentation produce for 2-16 goroutines released together on the same keys; they are not enumerated",
 		"the store-content oracle recomputes record ids with the documented scheme ('t.'/'h.' + SHA-256 over value, client id, type) and reads them back through TokenStorage.Get; BoltDB files are additionally iterated directly",
@@ -610,6 +627,13 @@ func Run(r *ev.Run) {
 	// disabled tokens answer like unknown ones, enabled back they give the original again: every store kind x type x detokenize entry point
 	for _, k := range storeKinds {
 		disabledMatrix(r, k, ks)
+	}
+
+	// tokens used again and again (6 uses of a consistent token, 3 of a random one) under every access-time granularity: with 0 / 1ns every Get refreshes the record
+	for _, k := range storeKinds {
+		for _, gran := range reuseGrans {
+			reuseMatrix(r, k, gran, ks)
+		}
 	}
 
 	// thorough: 2 000 histories (DESIGN planned 5 000; measured cost under -race is ~0.7 CPU-s per BoltDB history, so 5 000 do not fit the 10-minute tier)
@@ -666,6 +690,12 @@ func Run(r *ev.Run) {
 	r.RequireAtLeast("reenabled_token_detokenize_judged:sweep", int64(r.Pick(200, 2000)))
 	r.RequireAtLeast("disabled_token_detokenize_judged:concurrent-calls", int64(r.Pick(15, 150)))
 	r.RequireAtLeast("tokens_survived_partial_removal", 3)
+	// tokens used again: every (store kind, granularity, type) was driven, and with granularity 0 / 1ns the BoltDB reads really wrote the record back
+	r.RequireSetAtLeast("reuse_matrix_config_type", 60)
+	r.RequireAtLeast("reuse_matrix_uses_judged", 1500)
+	r.RequireAtLeast("reuse_matrix_boltdb_reads_that_wrote_the_record_back:granularity=0", 150)
+	r.RequireAtLeast("reuse_matrix_boltdb_reads_that_wrote_the_record_back:granularity=1ns", 150)
+	r.RequireAtLeast("reuse_sweep_calls", int64(r.Pick(1000, 10000)))
 	r.RequireSetAtLeast("layers_tokenize", 5)
 	r.RequireSetAtLeast("layers_detokenize", 4)
 	if r.Counter("store_lookup_hit") == 0 && r.Counter("store_lookup_miss") > 0 {
